@@ -643,6 +643,9 @@ const handlers = {
     const probe = instantiate(G, req.entry)
     let B
     try { B = probe.w.create(D0) } catch (e) { return { createThrew: String(e && e.stack || e) } }
+    // the runtime withdraws the whole map when the instance holds a dynamic-slot component (content exists once per slot
+    // instance): bindingMapUpdate then returns false and the engine falls back to the tree update
+    const disabled = !!probe.w.bindingMapDisabled
     const keys = B ? Object.keys(B) : []
     const named = {}
     for (const name of req.named || []) {
@@ -662,18 +665,25 @@ const handlers = {
       try {
         const b = inst.w.create(D0)
         const ok = inst.w.bindingMapUpdate(ch.field, D1, b)
+        if (!ok) {
+            // not offered after all: what tmpl/index.ts does next is the tree update for this one field
+            const U = Object.create(null); U[ch.field] = true
+            inst.w.update(D1, U)
+        }
         const cur = dumpRoot(inst.root)
         const f = instantiate(G, req.entry)
         f.w.create(D1)
         const fresh = dumpRoot(f.root)
-        if (!ok) m.push({ where: '', ch: 'bmap', name: ch.field, expected: 'updaters run', actual: 'bindingMapUpdate returned false' })
+        if (!ok && !inst.w.bindingMapDisabled) m.push({ where: '', ch: 'bmap', name: ch.field, expected: 'updaters run', actual: 'bindingMapUpdate returned false although the map is not withdrawn' })
         cmpTrees(fresh, cur, '', m, { paths: true })
+        results.push({ field: ch.field, mismatches: m.slice(0, 30), fellBack: !ok })
+        continue
       } catch (e) {
         m.push({ where: '', ch: 'throw', name: ch.field, expected: '<returns>', actual: 'throws: ' + String(e && e.stack || e).split('\n').slice(0, 3).join(' | ') })
       }
       results.push({ field: ch.field, mismatches: m.slice(0, 30) })
     }
-    return { keys, named, results }
+    return { keys, named, results, disabled }
   },
 
   // C14: two bundles must behave identically (creation + histories)
